@@ -54,3 +54,10 @@ CHECKS["C15"] = dict(
           "{pep440_version} is obtained from the library and end to end (`update` rewriting a file with both placeholders, `test` printing PEP440) and every predicate is "
           "evaluated by the trace spec on the recorded texts."),
     note=_NOTE, ref="DESIGN.md section 6, C15")
+CHECKS["C07"] = dict(
+    technique="TLA+ spec (BVPattern/BVRegex: every literal code point is a literal node) model-checked with TLC + trace validation of the real compiled search patterns on lines",
+    text=("Design level: for every literal over the 69 symbols up to length 2 (thorough 3) TLC checks that Search(Compile(lit t), line) hits exactly where t occurs, on all lines "
+          "within edit distance 1, and that ^t$ matches only the whole line. Conformance: for the same literals, seeded literals up to length 40 rich in regex metacharacters, "
+          "literals wrapped around YYYY.MM and anchored ones, the real compile_pattern(...).regexp.search(line) spans are recorded as `search` events and compared with the "
+          "spec's Search; `bumpver grep` is driven end to end on a sample."),
+    note=_NOTE, ref="DESIGN.md section 6, C07")
